@@ -627,6 +627,7 @@ def analyse(toks, macros):
             (not x["after_switch"] or any(n in ("EvRestore", "EvRestoreName") for n in names))
         x["frees_created"] = all(not f["live"] and not f["bad"] for f in finals)
     info = dict(variant=variant, vars=dict(old=old, dup=dup, new=new), notes=notes, assumptions=sorted(assumptions),
+                func_lines=(A.line(lo), A.line(hi)),
                 switch_line=A.line(sw) if sw is not None else None, restore_line=A.line(rs),
                 body=[(A.line(e.pos), e.var) for e in events if e.name == "EvBody"],
                 creations=[(e.name, A.line(e.pos), e.var) for e in events if e.name in ("EvDup", "EvNew")],
@@ -724,6 +725,39 @@ def simulate(path):
     return s
 
 
+# ------------------------------------------------------------------ the rest of the library
+STRAY_RE = re.compile(r"\b(uselocale|setlocale|newlocale|duplocale|freelocale)\s*\(")
+
+
+def stray_locale_calls(repo, cfg, parse_ex_lines, extra=()):
+    """every call of a locale-changing function in the library sources (all *.c of the repo root, preprocessed with
+    the real configuration) OUTSIDE json_tokener_parse_ex: [(file, line, name)].  None is expected: the serializer
+    and every other entry point must leave the caller's locale alone simply by never touching it."""
+    import glob
+    out = []
+    for src in sorted(glob.glob(os.path.join(repo, "*.c"))):
+        r = subprocess.run(["gcc", "-E", "-D_GNU_SOURCE", "-I", cfg, "-I", repo] + list(extra) + [src],
+                           stdout=subprocess.PIPE, stderr=subprocess.PIPE, text=True)
+        if r.returncode != 0:
+            raise TranslatorError("%s does not preprocess: %s" % (os.path.basename(src), r.stderr[-300:]))
+        cur_file, cur_line = src, 0
+        base = os.path.basename(src)
+        for l in r.stdout.split("\n"):
+            if l.startswith("#"):
+                m = re.match(r'#\s*(?:line\s+)?(\d+)\s+"((?:\\.|[^"\\])*)"', l)
+                if m:
+                    cur_line, cur_file = int(m.group(1)) - 1, m.group(2)
+                continue
+            cur_line += 1
+            if cur_file != src:
+                continue
+            for m in STRAY_RE.finditer(l):
+                if base == "json_tokener.c" and parse_ex_lines[0] <= cur_line <= parse_ex_lines[1]:
+                    continue
+                out.append((base, cur_line, m.group(1)))
+    return out
+
+
 # ------------------------------------------------------------------ output
 def coq_bool(b):
     return "true" if b else "false"
@@ -748,6 +782,7 @@ def render(exits, info, repo, error=None):
         L.append("(* TRANSLATOR ERROR: the source shape was not recognised:")
         L.append("   %s *)" % error.replace("*)", "* )").replace("(*", "( *"))
         L.append("Definition shape_recognised : bool := false.")
+        L.append("Definition stray_locale_calls : nat := 0.")
         L.append("Definition exits : list exit_desc := [].")
         return "\n".join(L) + "\n"
     L.append("(* variant: %s   variables: %s" % ({"U": "uselocale/duplocale/newlocale (per thread)",
@@ -764,6 +799,12 @@ def render(exits, info, repo, error=None):
     L.append("*)")
     L.append("Definition shape_recognised : bool := true.")
     L.append("")
+    L.append("(* calls of uselocale/setlocale/newlocale/duplocale/freelocale in the library sources (all *.c, preprocessed)")
+    L.append("   outside json_tokener_parse_ex (lines %s-%s of json_tokener.c): %s *)" % (
+        info["func_lines"][0], info["func_lines"][1],
+        "none" if not info["stray"] else "; ".join("%s:%d %s" % x for x in info["stray"])))
+    L.append("Definition stray_locale_calls : nat := %d." % len(info["stray"]))
+    L.append("")
     L.append("Definition exits : list exit_desc := [")
     rows = []
     for x in exits:
@@ -779,7 +820,9 @@ def translate(repo, cfg, extra=()):
     macros = probe_macros()
     text, src = preprocess(repo, cfg, extra)
     toks = lex(text, src)
-    return analyse(toks, macros)
+    exits, info = analyse(toks, macros)
+    info["stray"] = stray_locale_calls(repo, cfg, info["func_lines"], extra)
+    return exits, info
 
 
 def regenerate(repo, cfg, out=OUT, extra=()):
@@ -825,6 +868,7 @@ if __name__ == "__main__":
         print("TRANSLATOR ERROR (source shape not recognised): %s" % msg)
         sys.exit(1)
     print("%s: %s" % (out, msg))
+    print("  locale calls outside json_tokener_parse_ex: %s" % (info.get("stray") or "none"))
     for x in ex:
         print("  line %-5d %-16s after_switch=%-5s restores=%-5s frees_created=%-5s %s" % (
             x["line"], x["kind"], x["after_switch"], x["restores"], x["frees_created"], " ".join(coq_ev(p) for p in x["path"])))
